@@ -35,12 +35,14 @@ Judge(s0, e) ==
         obs   == Obs(s0.ref, e.chg)
         top   == s0.koff + s0.mem                  \* valid when s0.kk
         alloc == IF e.ae > s0.ae THEN e.ae - s0.ae ELSE 0
+        \* LSET / RSET / MID$= on a value that lives in the program text copy it to string space first
+        copy  == IF e.op \in {"lset", "rset", "midset"} /\ e.c \in s0.code THEN Len(s0.ref[e.c]) ELSE 0
     IN  IF e.kind = "internal" THEN "internal_error"
         ELSE IF e.kind = "err" THEN
              IF obs # s0.ref THEN "failed_statement_changed_a_value"
              ELSE IF e.code = d.err \/ OpenOutcome(e.op) THEN "ok"
              ELSE IF e.code \in {7, 14} THEN
-                  IF s0.kk /\ ~MayRunOut(top, s0.ae, s0.ref, s0.code, d.need, alloc + (IF e.code = 7 THEN 64 ELSE 0))
+                  IF s0.kk /\ ~MayRunOut(top, s0.ae, s0.ref, s0.code, d.need + copy, alloc + (IF e.code = 7 THEN 64 ELSE 0))
                   THEN "out_of_space_with_sufficient_free_space" ELSE "ok"
              ELSE "error_not_demanded_by_reference"
         ELSE IF d.err # 0 THEN "demanded_error_not_raised"
